@@ -12,7 +12,7 @@ from fractions import Fraction
 from engine import term as T, agg, build, vg, ordd, poly as P, polycheck as PC
 from engine.agg import ELEM, TU
 from engine.report import HOLDS, VIOLATED, UNDECIDED
-from .common import Analysed, fn_where
+from .common import Analysed, fn_where, narrowing
 
 MINNORM = {'float': Fraction(1, 2 ** 126), 'double': Fraction(1, 2 ** 1022)}
 
@@ -213,5 +213,6 @@ def main(rep, ws, tier):
                     bad = 'slot %d is computed as %s, not as the quotient a_%d / length(): a reciprocal of a subnormal length is infinite' % (i, T.show(w, 4)[:160], i); break
             rep.ob(oid, 'R08.norm', VIOLATED if bad else HOLDS, bad or '', where)
     rep.floor('length/normalise instances', len(rep.obs), 30 * len(types))
+    narrowing(rep, ws, [gen('d')], 'R08.prec')
     rep.assumptions += ['abs idiom (x >= 0 ? x : -x) read as |x| (signed zeros / NaN aside)', 'exact real arithmetic for the scaled-sum identity']
     rep.undecided_clauses += ['the ulp bounds themselves', 'the ulp bound of the quotient itself']
